@@ -29,6 +29,7 @@ type Engine struct {
 	specFuncs map[string]specFuncSig
 	specLibs  map[string][]string // "<lib>.<theory>" -> SMT-LIB lines
 	specLibRaw map[string][]string // the same with (lemma ...) forms unexpanded
+	lemmaAxioms map[string]string  // axiom text of a lemma -> its name
 	lemmaLibs  map[string]string   // pseudo function "lemmas.<lib>" -> library key
 	lemmaProps map[string][]string
 	slots     map[string]int64
@@ -40,7 +41,7 @@ type Engine struct {
 
 func NewEngine(repo, verifDir, tags string) (*Engine, error) {
 	e := &Engine{repo: repo, verifDir: verifDir, tags: tags, funcs: map[string]*ssa.Function{},
-		specFuncs: map[string]specFuncSig{}, specLibs: map[string][]string{}, specLibRaw: map[string][]string{}, lemmaLibs: map[string]string{}, lemmaProps: map[string][]string{}, slots: map[string]int64{},
+		specFuncs: map[string]specFuncSig{}, specLibs: map[string][]string{}, specLibRaw: map[string][]string{}, lemmaLibs: map[string]string{}, lemmaAxioms: map[string]string{}, lemmaProps: map[string][]string{}, slots: map[string]int64{},
 		typeIDs: map[string]int64{}, funcIDs: map[string]int64{}, globIDs: map[string]int64{}, allPkgs: map[string]*types.Package{}}
 	cfg := &packages.Config{Mode: packages.LoadAllSyntax, Dir: repo, BuildFlags: []string{"-tags=" + tags},
 		Env: append(os.Environ(), "GOFLAGS=-mod=mod", "GOPROXY=off", "GOSUMDB=off", "GOTOOLCHAIN=local")}
@@ -206,6 +207,7 @@ func (e *Engine) loadSpecLibs() error {
 					return fmt.Errorf("%s: %v", f, err)
 				}
 				expanded = append(expanded, l.axiom())
+				e.lemmaAxioms[l.axiom()] = l.Name
 				for _, p := range l.Props {
 					if !hasProp(lemmaProps, p) {
 						lemmaProps = append(lemmaProps, p)
@@ -395,9 +397,13 @@ func (e *Engine) prelude(th Theory, libs []string) []string {
 			"(declare-fun bit.and (Int Int) Int)", "(declare-fun bit.andnot (Int Int) Int)",
 			"(declare-fun bit.or (Int Int) Int)", "(declare-fun bit.xor (Int Int) Int)",
 			"(declare-fun u32.add (Int Int) Int)", "(declare-fun u32.sub (Int Int) Int)", "(declare-fun u32.mul (Int Int) Int)",
-			"(assert (forall ((a Int) (b Int)) (! (= (u32.add a b) (ite (>= (+ a b) 4294967296) (- (+ a b) 4294967296) (ite (< (+ a b) 0) (+ (+ a b) 4294967296) (+ a b)))) :pattern ((u32.add a b)))))",
-			"(assert (forall ((a Int) (b Int)) (! (= (u32.sub a b) (ite (>= (- a b) 4294967296) (- (- a b) 4294967296) (ite (< (- a b) 0) (+ (- a b) 4294967296) (- a b)))) :pattern ((u32.sub a b)))))",
-			"(assert (forall ((a Int) (b Int)) (! (= (u32.mul a b) (mod (* a b) 4294967296)) :pattern ((u32.mul a b)))))",
+			// u32.add / u32.sub / u32.mul / u32.rolK: the wrapping 32-bit operations. Only their range is given
+			// to the solvers: every use is a proof by congruence between a code term and a reference term over
+			// the same symbols (valid for any functions with this range); their definitions made z3 5.1 stall
+			// on obligations that never needed them.
+			"(assert (forall ((a Int) (b Int)) (! (and (<= 0 (u32.add a b)) (< (u32.add a b) 4294967296)) :pattern ((u32.add a b)))))",
+			"(assert (forall ((a Int) (b Int)) (! (and (<= 0 (u32.sub a b)) (< (u32.sub a b) 4294967296)) :pattern ((u32.sub a b)))))",
+			"(assert (forall ((a Int) (b Int)) (! (and (<= 0 (u32.mul a b)) (< (u32.mul a b) 4294967296)) :pattern ((u32.mul a b)))))",
 			"(declare-fun errInner (Int) Int)",
 			"(assert (forall ((e Int)) (! (=> (and (>= e 0) (< e 1048576)) (= (errInner e) 0)) :pattern ((errInner e)))))",
 			"(define-fun errIs ((e Int) (t Int)) Bool (or (= e t) (and (not (= (errInner e) 0)) (or (= (errInner e) t) (and (not (= (errInner (errInner e)) 0)) (or (= (errInner (errInner e)) t) (= (errInner (errInner (errInner e))) t)))))))")
@@ -409,7 +415,7 @@ func (e *Engine) prelude(th Theory, libs []string) []string {
 				continue
 			}
 			p = append(p, fmt.Sprintf("(declare-fun u32.rol%d (Int) Int)", k),
-				fmt.Sprintf("(assert (forall ((a Int)) (! (= (u32.rol%d a) (+ (mod (* a %d) 4294967296) (div a %d))) :pattern ((u32.rol%d a)))))", k, int64(1)<<uint(k), int64(1)<<uint(32-k), k))
+				fmt.Sprintf("(assert (forall ((a Int)) (! (and (<= 0 (u32.rol%d a)) (< (u32.rol%d a) 4294967296)) :pattern ((u32.rol%d a)))))", k, k, k))
 		}
 	}
 	suffix := ".int"
@@ -417,10 +423,15 @@ func (e *Engine) prelude(th Theory, libs []string) []string {
 		suffix = ".bv"
 	}
 	for _, l := range libs {
-		if forms, ok := e.specLibs[l+suffix]; ok {
-			p = append(p, forms...)
-		} else if forms, ok := e.specLibs[l]; ok {
-			p = append(p, forms...)
+		forms, ok := e.specLibs[l+suffix]
+		if !ok {
+			forms, ok = e.specLibs[l]
+		}
+		for _, fm := range forms {
+			if name, isLemma := e.lemmaAxioms[fm]; isLemma && !th.lemmas[name] {
+				continue // a lemma is given to a function only when its contract asks for it (`lemmas NAME ...`)
+			}
+			p = append(p, fm)
 		}
 	}
 	return p
@@ -478,7 +489,10 @@ func (e *Engine) translateFunc(key string, preCells []*Cell) (res *funcResult) {
 			panic(r)
 		}
 	}()
-	th := Theory{bv: fc.Theory == "bv", named32: fc.Theory == "u32"}
+	th := Theory{bv: fc.Theory == "bv", named32: fc.Theory == "u32", lemmas: map[string]bool{}}
+	for _, n := range fc.UseLemmas {
+		th.lemmas[n] = true
+	}
 	t := &fnTrans{eng: e, th: th, fc: fc, fn: fn, globals: map[string]*Cell{}, cellTyp: map[string]types.Type{},
 		oldSnap: map[string]*Cell{}, callSeq: map[string]int{}, assumptions: map[string]bool{}, usedSpecFuncs: map[string]bool{}, usedAsserts: map[string]bool{}, constGlobals: map[string]int64{}, outside: map[string]int{}, preGlobals: preCells}
 	t.proc = &Proc{Name: key, Props: fc.Props}
@@ -673,7 +687,7 @@ func (e *Engine) translateFunc(key string, preCells []*Cell) (res *funcResult) {
 		if th.bv {
 			return nil
 		}
-		if c.Name == "H_$rdData" || c.Name == "H_$wrData" || c.Name == "H_$xxhData" {
+		if c.Name == "H_$rdData" || c.Name == "H_$wrData" || c.Name == "H_$xxhData" || strings.HasPrefix(c.Name, "H_$gs_") {
 			if sel.Sort() == SInt {
 				return And(ILe(IntLit(0), sel), ILt(sel, IntLit(256)))
 			}
